@@ -139,7 +139,7 @@ class AnsiDecoder:
         _Style = Style
         text = Text()
         append = text.append
-        line = line.rsplit("\r", 1)[-1]
+        line = line.rstrip("\r").rsplit("\r", 1)[-1]
         for token in _ansi_tokenize(line):
             plain_text, sgr, osc = token
             if plain_text:
